@@ -569,6 +569,10 @@ def c11(ctx):
     r2 = ctx.tlc("MC_Edit", cfg="MC_Edit_%s.cfg" % ("parse_q" if q else "parse_t"), dump="states", label="parsed tapes", timeout=3000)
     ctx.vh(["g-edit", "-dump", r2["dump"], "-property", "C11", "-expect", str(r2["distinct"]), "-sermodes", "4"], timeout=7200)
     os.remove(r2["dump"])
+    # number words of every tag after SetInt / SetUInt / SetFloat (an unsigned tag holding a small value exists only after SetUInt)
+    rn = ctx.tlc("MC_Edit", cfg="MC_Edit_numser.cfg", dump="states", label="numeric replacements, round trip")
+    ctx.vh(["g-edit", "-dump", rn["dump"], "-property", "C11", "-expect", str(rn["distinct"]), "-sermodes", "4"], timeout=3000)
+    os.remove(rn["dump"])
     ctx.vh(["deser-check", "-in", blobs, "-property", "C11"], tags="verif,noasm")
     ctx.vh(["v-serbig", "-seed", str(ctx.seed), "-scale", "1" if q else "3", "-property", "C11"], timeout=3000)
     # every history of <= 2 (thorough 3) operations on ONE Serializer and ONE destination: Serialize x doc x mode, Deserialize of a
